@@ -75,6 +75,13 @@ type Service struct {
 	handlers         []FailureHandler
 	runningPipelines *csync.Map[string, *runnablePipeline]
 
+	// publishMu serializes the writers of runningPipelines (the publication in
+	// runPipeline and the compare-and-delete of the cleanup goroutine), so the
+	// read-compare-delete in deleteRunningPipelineIfCurrent is atomic with
+	// respect to a concurrent publication. Same purpose as publishMu in the
+	// sibling pkg/lifecycle package; never held across I/O.
+	publishMu sync.Mutex
+
 	// terminalErrors holds the terminal error of a pipeline after it has stopped
 	// and been removed from runningPipelines, so WaitPipeline can still report it
 	// to a caller that races the pipeline's own cleanup goroutine. Written before
@@ -1654,8 +1661,14 @@ func (s *Service) runPipeline(rp *runnablePipeline) error {
 		// delete leaves no window where neither is observable).
 		s.terminalErrors.Set(rp.pipeline.ID, err)
 
-		// confirmed that all nodes stopped, we can now remove the pipeline from the running pipelines
-		s.runningPipelines.Delete(rp.pipeline.ID)
+		// confirmed that all nodes stopped, we can now remove the pipeline from the
+		// running pipelines - but only if the entry is still this run. The status
+		// write above can take arbitrarily long and the pipeline is already
+		// reported as stopped while it is in flight, so a Start issued in that
+		// window may have published a NEW run under the same ID; deleting by key
+		// would then strand that live run outside the map (reported as running,
+		// but Stop answers "not running" and nothing can stop it).
+		s.deleteRunningPipelineIfCurrent(rp.pipeline.ID, rp)
 
 		s.notify(rp.pipeline.ID, err)
 		return err
@@ -1699,7 +1712,9 @@ func (s *Service) runPipeline(rp *runnablePipeline) error {
 	//   - that cleanup goroutine blocks on startupDone (closed below), so it
 	//     can never Delete before this Set, which would strand a live run
 	//     outside the map.
+	s.publishMu.Lock()
 	s.runningPipelines.Set(rp.pipeline.ID, rp)
+	s.publishMu.Unlock()
 
 	// It's now safe to make the potentially slow UpdateStatus call and then
 	// release the cleanup goroutine to make its own. close(startupDone)
@@ -1724,6 +1739,18 @@ func (s *Service) runPipeline(rp *runnablePipeline) error {
 // position: no acked record is re-read as un-acked, and no un-acked record is
 // skipped. The restart re-reads and re-processes anything not yet durably acked
 // (at-least-once).
+// deleteRunningPipelineIfCurrent removes id from runningPipelines only if the
+// entry is still rp, i.e. no newer run was published under the same ID in the
+// meantime. Mirrors pkg/lifecycle's function of the same name.
+func (s *Service) deleteRunningPipelineIfCurrent(id string, rp *runnablePipeline) {
+	s.publishMu.Lock()
+	defer s.publishMu.Unlock()
+
+	if current, ok := s.runningPipelines.Get(id); ok && current == rp {
+		s.runningPipelines.Delete(id)
+	}
+}
+
 func (s *Service) recoverPipeline(ctx context.Context, rp *runnablePipeline) error {
 	s.logger.Trace(ctx).Str(log.PipelineIDField, rp.pipeline.ID).Msg("recovering pipeline")
 	if !s.metricsDisabled {
